@@ -70,6 +70,10 @@ pub struct Outcome {
     pub sim_time: u64,
     /// Hash of the complete event log of the run (for the determinism recheck).
     pub log_hash: u64,
+    /// Deviations that match the model of a defect recorded in known_findings.json: (key, detail).
+    /// They do not stop the run; the parent reports them as KNOWN-FINDING if (and only if) the key is
+    /// listed in the known-findings file, and as a violation otherwise.
+    pub known: Vec<(String, String)>,
 }
 
 impl Outcome {
@@ -85,8 +89,14 @@ impl Outcome {
             });
         }
     }
+    pub fn note_known(&mut self, key: &str, detail: String) {
+        if !self.known.iter().any(|(k, _)| k == key) {
+            self.known.push((key.to_owned(), detail));
+        }
+    }
     pub fn to_json(&self) -> Json {
         let mut j = json!({
+            "known": self.known,
             "stats": self.stats,
             "digest": self.digest,
             "nontrivial": self.nontrivial,
@@ -109,6 +119,11 @@ impl Outcome {
         o.nontrivial = j["nontrivial"].as_bool().unwrap_or(false);
         o.sim_time = j["sim_time"].as_u64().unwrap_or(0);
         o.log_hash = j["log_hash"].as_u64().unwrap_or(0);
+        if let Some(a) = j["known"].as_array() {
+            for x in a {
+                o.known.push((x[0].as_str().unwrap_or("").to_owned(), x[1].as_str().unwrap_or("").to_owned()));
+            }
+        }
         if let Some(v) = j.get("violation") {
             o.violation = Some(Violation {
                 class: v["class"].as_str().unwrap_or("").to_owned(),
@@ -286,7 +301,9 @@ pub enum ChildResult {
 impl ChildResult {
     pub fn violation(&self) -> Option<Violation> {
         match self {
-            ChildResult::Outcome(o) => o.violation.clone(),
+            ChildResult::Outcome(o) => o.violation.clone().or_else(|| {
+                o.known.first().map(|(k, d)| Violation { class: "known-defect-model".to_owned(), key: k.clone(), detail: d.clone() })
+            }),
             ChildResult::Crash(sig) => Some(Violation {
                 class: "crash".to_owned(),
                 key: "crash".to_owned(),
@@ -491,6 +508,8 @@ struct Agg {
     log_hashes: BTreeMap<u64, u64>,
     findings: Vec<Finding>,
     harness_errors: Vec<String>,
+    known_seen: BTreeSet<String>,
+    known_repeat: BTreeMap<String, u64>,
 }
 
 pub fn known_findings() -> Json {
@@ -573,6 +592,20 @@ pub fn parent_main(world: &'static dyn World, tier: Tier) -> i32 {
                         }
                         a.sim_time += o.sim_time;
                         a.log_hashes.insert(i, o.log_hash);
+                        for (k, d) in &o.known {
+                            // Reported through the same path as violations; suppressed only if listed.
+                            if a.known_seen.insert(k.clone()) {
+                                let case = world.generate(base, i, tier);
+                                a.findings.push(Finding {
+                                    index: i,
+                                    violation: Violation { class: "known-defect-model".to_owned(), key: k.clone(), detail: d.clone() },
+                                    case,
+                                    prefix: Vec::new(),
+                                });
+                            } else {
+                                *a.known_repeat.entry(k.clone()).or_insert(0) += 1;
+                            }
+                        }
                         if let Some(v) = o.violation {
                             let case = world.generate(base, i, tier);
                             a.findings.push(Finding {
@@ -616,7 +649,8 @@ pub fn parent_main(world: &'static dyn World, tier: Tier) -> i32 {
     // Determinism recheck: re-run the first K indices in one fresh process, in reverse order.
     let mut recheck_done = 0u64;
     let mut recheck_div = 0u64;
-    if agg.findings.is_empty() {
+    let only_known = agg.findings.iter().all(|f| is_known(&known_findings(), id, &f.violation.key).is_some());
+    if only_known {
         let k = std::cmp::min(budget.recheck, agg.evaluations);
         let indices: Vec<u64> = (0..k).rev().filter(|i| agg.log_hashes.contains_key(i)).collect();
         if !indices.is_empty() {
@@ -651,7 +685,7 @@ pub fn parent_main(world: &'static dyn World, tier: Tier) -> i32 {
     let findings = std::mem::take(&mut agg.findings);
     for f in findings {
         if let Some(what) = is_known(&known, id, &f.violation.key) {
-            *known_hits.entry(f.violation.key.clone()).or_insert(0) += 1;
+            *known_hits.entry(f.violation.key.clone()).or_insert(0) += 1 + agg.known_repeat.get(&f.violation.key).copied().unwrap_or(0);
             if known_printed.insert(f.violation.key.clone()) {
                 println!("KNOWN-FINDING: property={id} {what}");
             }
@@ -660,6 +694,21 @@ pub fn parent_main(world: &'static dyn World, tier: Tier) -> i32 {
         let sig = format!("{}|{}", f.violation.class, f.violation.key);
         if reported.contains(&sig) || reported.len() >= 4 {
             violations += 1;
+            continue;
+        }
+        if f.violation.class == "known-defect-model" {
+            // A deviation matching a modelled defect that is NOT listed in known_findings.json.
+            let confirm = exec_case_in_child(id, &f.case, budget.hang_s);
+            let ok = matches!(&confirm, ChildResult::Outcome(o) if o.known.iter().any(|(k, _)| *k == f.violation.key));
+            if !ok {
+                agg.harness_errors.push(format!("run {} reported modelled defect {} but it did not reproduce", f.index, f.violation.key));
+                continue;
+            }
+            let path = write_replay(id, base, f.index, tier, &f.case, &f.violation, None);
+            violations += 1;
+            reported.insert(sig);
+            println!("VIOLATION property={id} replay={path}");
+            println!("  class={} key={} detail={}", f.violation.class, f.violation.key, first_line(&f.violation.detail));
             continue;
         }
         // Confirm in a fresh process.
